@@ -621,6 +621,21 @@ for _x, _d in ((0, 'CHOICE { x [1], y [3] }'), (1, 'CHOICE { x [1], ..., y [3] }
       defines=['VF_X=%d' % _x, 'VF_N=6', 'VF_CB_CAP=8'], unwind=10, cbmc=['--no-malloc-may-fail'],
       bound=_d + ' of stub alternatives; every presence index 0..3 and value', min_props=80, timeout=1200, **CHO)
 
+CHM = dict(harness='harness/h_choice_misc.c', units=[SK + 'constr_CHOICE.c', SK + 'der_encoder.c', SK + 'per_support.c', SK + 'asn_bit_data.c'],
+           link=[SK + 'der_encoder.c', SK + 'ber_tlv_tag.c', SK + 'ber_tlv_length.c', SK + 'per_support.c', SK + 'asn_bit_data.c'],
+           fp_restrict=[(r'der_encoder\)$', ['sv_der']), (r'uper_encoder\)$', ['sv_enc']), (r'uper_decoder\)$', ['sv_dec']), (r'free_struct\)$', ['sv_free']), (r'::cb$|\.output\)$|->output\)$', ['vf_cb'])],
+           trusted=['alternative type is a harness stub (DER: <tag> 01 v, PER: 8 bits); descriptor laid out by hand in the shape asn1c emits'])
+for _t in (0, 1):
+    O(id='CHOICE_encode_der.t%d' % _t, props=['C02', 'C07'], kind='bounded', entry='h_CHOICE_encode_der', functions=['CHOICE_encode_der', 'der_write_tags', '_fetch_present_idx'],
+      defines=['VF_TAGGED=%d' % _t, 'VF_CB_CAP=8'], unwind=10, cbmc=['--no-malloc-may-fail'],
+      bound=('[0] EXPLICIT ' if _t else '') + 'CHOICE of three stub alternatives: every presence index 0..4, every value, every callback failure point', min_props=60, timeout=900, **CHM)
+O(id='CHOICE_uper_roundtrip', props=['C01', 'C02', 'C07'], kind='bounded', entry='h_CHOICE_uper_roundtrip', functions=['CHOICE_encode_uper', 'CHOICE_decode_uper', '_fetch_present_idx', '_set_present_idx'],
+  defines=['VF_CB_CAP=8'], unwind=10, cbmc=['--unwindset', 'asn_get_few_bits:4,asn_put_few_bits:4', '--no-malloc-may-fail'],
+  bound='CHOICE of three root alternatives (8-bit stubs): every presence index 0..4 and value', min_props=60, timeout=900, **CHM)
+O(id='CHOICE_decode_uper.b3', props=['C03', 'C04', 'C14'], kind='bounded', entry='h_CHOICE_decode_uper', functions=['CHOICE_decode_uper', 'CHOICE_free', '_set_present_idx'],
+  defines=['VF_CB_CAP=8'], unwind=10, cbmc=['--unwindset', 'asn_get_few_bits:4', '--malloc-may-fail', '--malloc-fail-null', '--memory-leak-check'],
+  bound='every bit string of at most 24 bits at every bit offset 0..7; every allocation may fail', min_props=60, timeout=900, **CHM)
+
 for _o in OBLIGATIONS:
     if _o.get('enforce') and _o.get('kind') in ('enforce', 'width') and _o.get('tier') == 'quick' and 'C19' not in _o['props']:
         _o['props'] = _o['props'] + ['C19']
